@@ -21,7 +21,7 @@ PROPS = {
   'C14': {'families': [('tt', 3000, 300000)]},
   'C15': {'families': [('eval', 3000, 300000)]},
   'C16': {'families': [('evalc', 1000, 60000), ('eval', 500, 20000), ('ecache', 2000, 200000)]},
-  'C18': {'families': [('see', 1200, 100000), ('seebat', 500, 60000)]},
+  'C18': {'families': [('see', 1500, 100000), ('seebat', 900, 80000)]},
   'C19': {'families': [('order', 1500, 100000)]},
 }
 
